@@ -388,7 +388,7 @@ func init() {
 		if tier == "thorough" {
 			n = 600
 		}
-		genC03(r, n, emit)
+		genC03(r, n, emit, false) // no mock clock in the built binary
 	}
 	register(c)
 }
